@@ -351,6 +351,15 @@ static void exh_fail(struct exh_stat *st, const char *what, u128 a, u128 b, unsi
 #define CAPMASK(cap) ((((u128)1) << ((cap) * BN_DIGIT_BITS)) - 1)
 static unsigned ndig(u128 v) { unsigned n = 0; while (v) { n++; v >>= BN_DIGIT_BITS; } return n; }
 
+static volatile unsigned long exh_cur_a, exh_cur_b;
+static void exh_on_alarm(int sig) {
+	char m[128]; int n;
+	(void)sig;
+	n = snprintf(m, sizeof(m), "\nVERIF-HANG exhaustive a=%lu b=%lu\n", exh_cur_a, exh_cur_b);
+	(void)!write(2, m, (size_t)n);
+	_exit(97);
+}
+
 static int exhaustive(int argc, char **argv) {
 	/* exh <a_lo> <a_hi> <b_bits> <pat> : a in [a_lo,a_hi), b in [0, 2^b_bits) */
 	unsigned long a_lo = strtoul(argv[2], NULL, 0), a_hi = strtoul(argv[3], NULL, 0);
@@ -367,12 +376,17 @@ static int exhaustive(int argc, char **argv) {
 	(void)argc;
 
 	memset(S, 0, sizeof(S));
+	vdrv_case_secs = 6;
+	signal(SIGVTALRM, exh_on_alarm);
 	for (a = a_lo; a < a_hi; a++) {
 		unsigned da = ndig(a);
+		exh_cur_a = a;
+		vdrv_arm(); /* CPU budget per value of a */
 		vdrv_dirty_stack((uint8_t)(pat + a));
 		for (b = 0; b < b_hi; b++) {
 			unsigned db = ndig(b);
 			uint8_t p2 = (uint8_t)(pat + 3 * a + 7 * b);
+			exh_cur_b = b;
 			/* add / sub with carry at tight and ample capacity */
 			for (cap = (da > db ? da : db); cap <= 3; cap++) {
 				if (0 == cap) continue;
@@ -493,6 +507,7 @@ int main(int argc, char **argv) {
 		    (unsigned)BN_BIT_LEN, sizeof(bn_t));
 		return (0);
 	}
+	vdrv_case_secs = 6; /* slowest legitimate case (8-bit portable digits under ASan) needs < 1 s */
 	vdrv_init();
 	while ((cs = vdrv_next_case(&len))) {
 		vin_t in = { cs, len, 0, 0 };
